@@ -559,6 +559,56 @@ def stage_ragged_and_handlers(ctx: Ctx):
                                 break
 
 
+DELIMIT_HDR = ('From Coq Require Import ZArith List Bool.\nFrom PF Require Import kernel.OffsetBase gen.DelimitCalls models.Offset models.Delimit.\n'
+               'Import ListNotations.\nLocal Open Scope Z_scope.\n'
+               "Definition chk (own : bool) (ls cs le ce : Z) (l : list (role * npos * npos)) : bool := "
+               "forallb (fun '(r, q, q') => npos_eqb ((if own then delimit_pos else group_pos) ls cs le ce r q) q') l.\n")
+
+
+def stage_delimit_corr(ctx: Ctx):
+    """models/Delimit.v == the implementation: par(force=True) on every expression / pattern node (not a root, not a Starred) of the PAR_PROGS: the AST position of EVERY node
+    of the tree before and after, against delimit_pos (an undelimited Tuple / MatchSequence) or group_pos (anything else) applied to the node's role"""
+    import fst
+    P = lambda a: (a.lineno, a.col_offset, a.end_lineno, a.end_col_offset)
+    terms, meta = [], []
+    for src in PAR_PROGS:
+        probe = fst.FST(src, 'exec')
+        paths = [probe.child_path(f, True) for f in probe.walk(True) if isinstance(f.a, (ast.expr, ast.pattern)) and not isinstance(f.a, ast.Starred)]
+        for path in paths:
+            root = fst.FST(src, 'exec')
+            node = root.child_from_path(path)
+            if node.pars().n:
+                continue   # already parenthesized: another pair goes around the existing one, not at the node's own ends
+            own = (isinstance(node.a, ast.Tuple) and not node._is_delimited_seq()) or (isinstance(node.a, ast.MatchSequence) and not node.is_delimited_matchseq())
+            nodes = [a for a in ast.walk(root.a) if hasattr(a, 'end_col_offset')]
+            below = {id(a) for a in ast.walk(node.a)} - {id(node.a)}
+            before = [P(a) for a in nodes]
+            T = P(node.a)
+            if T[0] == T[2] and T[1] == T[3]:
+                continue
+            try:
+                if not node.par(force=True) and root.src == src:
+                    continue
+            except Exception:
+                continue
+            if len(root.src) != len(src) + 2:
+                continue   # more than the one pair was put (the base of an annotated target gets the target parenthesized too)
+            if root.src == src or any(a.f is None or a.f.root is not root for a in nodes if hasattr(a, 'f')):
+                continue
+            after = [P(a) for a in nodes]
+            rows = '; '.join(f'({"RSelf" if a is node.a else "RInner" if id(a) in below else "ROther"}, ({b[0]}, {b[1]}, {b[2]}, {b[3]}), ({c[0]}, {c[1]}, {c[2]}, {c[3]}))'
+                             for a, b, c in zip(nodes, before, after))
+            terms.append(f'chk {"true" if own else "false"} {T[0]} {T[1]} {T[2]} {T[3]} [{rows}]')
+            meta.append({'src': src, 'node': path, 'node_src': node.src, 'own_delimiters': own, 'after_src': root.src})
+            ctx.tick(('delimit-corr', src, str(path)), 'corr:delimit:' + ('own' if own else 'group'))
+    try:
+        failed = coq_eval_bools('C01_delimit', DELIMIT_HDR, terms, shard=200)
+        ctx.correspondence('models/Delimit.v delimit_pos / group_pos (TRANSLATED call flags) == the AST position of every node after par(force=True) on every expression and pattern node of the parenthesization programs',
+                           len(terms), [meta[i] for i in failed])
+    except CoqEvalError as e:
+        ctx.broken.append({'kind': 'correspondence', 'name': 'delimit', 'detail': str(e)[:2000]})
+
+
 def run(ctx: Ctx):
     ctx.rule = ('random edit sequences (length 1..8 quick / 1..30 thorough) over the hand corpus + generated programs; ops: replace/remove/cut of '
                 'expressions, statements, patterns; put_slice/insert/extend/prextend of statements and expressions; put(one); attribute '
@@ -580,6 +630,8 @@ def run(ctx: Ctx):
     run_guarded(ctx, stage_structural_sweep)
     run_guarded(ctx, stage_par_unpar)
     run_guarded(ctx, stage_ragged_and_handlers)
+    if ok:
+        run_guarded(ctx, stage_delimit_corr)
     if ok:
         try:
             failed = coq_eval_bools('C01_troff', HDR, tracer.terms_offset, shard=40)
